@@ -238,7 +238,7 @@ static std::vector<std::string> hist_gen(const GenArgs &ga) {
     pl.push_back("op compile p=0 target=default fmask=0xffffffff" + (cell.phase == 1 ? enum_faults : std::string()));
     pl.push_back(strf("op run p=0 mode=exec n=0 ds=%llu", (unsigned long long)(dr.next() >> 20)));
     pl.push_back("op take p=0");
-    pl.push_back(strf("op runc c=0 mode=exec n=0 ds=%llu", (unsigned long long)(dr.next() >> 20)));
+    pl.push_back(strf("op runc c=0 mode=%s n=0 ds=%llu", ga.index % 3 ? "direct" : "exec", (unsigned long long)(dr.next() >> 20)));
   } else {
     std::string l = "init";
     if (faults && fr.chance(1, 2)) {
@@ -246,6 +246,37 @@ static std::vector<std::string> hist_gen(const GenArgs &ga) {
       for (int i = 0; i < nf; i++) l += " " + gen_fault(fr, 5);
     }
     pl.push_back(l);
+  }
+
+  // ---- C09: exhaustive enumeration of short alloc/free sequences -------------------
+  // Alphabet: allocate one of four chunk sizes, free the oldest / the newest / the
+  // middle live chunk.  Every sequence of length D over it is executed (many per run,
+  // separated by "free everything"), against the same interval-set model as the
+  // random histories.  D = 5 in the quick tier, 6 in the thorough tier.
+  if (P == "C09") {
+    const int A = 7, D = thorough ? 6 : 5, per_run = thorough ? 60 : 40;
+    uint64_t total = 1;
+    for (int i = 0; i < D; i++) total *= A;
+    uint64_t first = ga.index * per_run;
+    if (first < total) {
+      static const int sizes[4] = {16, 4096, 30000, 65536};
+      for (uint64_t s = first; s < first + per_run && s < total; s++) {
+        uint64_t x = s;
+        for (int k = 0; k < D; k++, x /= A) {
+          int sym = (int)(x % A);
+          if (sym < 4) pl.push_back(strf("op rawalloc size=%d fill=%llu", sizes[sym], (unsigned long long)(s * 8 + k)));
+          else pl.push_back(strf("op freec c=%s", sym == 4 ? "0" : sym == 5 ? "newest" : "middle"));
+        }
+        pl.push_back("op freeall");
+      }
+      // rewrite the configuration lines for this mode: no faults, one cycle, everything ok
+      for (auto &l : pl) {
+        if (starts(l, "dirs ")) l = "dirs xdg=unset home=unset tmpdir=unset tmp=ok execmem=1";
+        if (starts(l, "cfg ")) l = "cfg poison=0 sink=0 cycles=1 oracles=layout,bytes,reuse,growth,enum refchild=0";
+        if (starts(l, "init")) l = "init";
+      }
+      return pl;
+    }
   }
 
   // ---- operations -----------------------------------------------------------
@@ -275,12 +306,12 @@ static std::vector<std::string> hist_gen(const GenArgs &ga) {
     } else if (op == "freec") {
       l += strf(" c=%d", (int)pr.below(1000));
     } else if (op == "run") {
-      static const char *modes[] = {"exec", "exec", "exec", "emulate", "backup"};
-      l += strf(" p=%d mode=%s n=%d ds=%llu", (int)pr.below(1000), modes[pr.below(5)],
+      static const char *modes[] = {"exec", "exec", "direct", "direct", "emulate", "backup"};
+      l += strf(" p=%d mode=%s n=%d ds=%llu", (int)pr.below(1000), modes[pr.below(6)],
                 pr.chance(1, 4) ? 0 : 1 + (int)pr.below(100), (unsigned long long)(dr.next() >> 20));
     } else if (op == "runc") {
-      static const char *modes[] = {"exec", "exec", "exec", "emulate", "backup"};
-      l += strf(" c=%d mode=%s n=%d ds=%llu", (int)pr.below(1000), modes[pr.below(5)],
+      static const char *modes[] = {"exec", "exec", "direct", "direct", "emulate", "backup"};
+      l += strf(" c=%d mode=%s n=%d ds=%llu", (int)pr.below(1000), modes[pr.below(6)],
                 pr.chance(1, 4) ? 0 : 1 + (int)pr.below(100), (unsigned long long)(dr.next() >> 20));
     } else if (op == "debug") {
       l += strf(" level=%d", (int)pr.below(6));
@@ -542,7 +573,7 @@ static void do_run(State &st, Prog *pp, CodeObj *co, const std::string &mode_s, 
   Child &c = *st.c;
   const ProgMeta &meta = pp ? pp->meta : co->meta;
   if (meta.unsafe_run) { c.event("  skip-run unsafe %s", meta.name.c_str()); return; }
-  RunMode mode = mode_s == "emulate" ? RUN_EMULATE : mode_s == "backup" ? RUN_BACKUP : RUN_EXEC;
+  RunMode mode = mode_s == "emulate" ? RUN_EMULATE : mode_s == "backup" ? RUN_BACKUP : mode_s == "direct" ? RUN_DIRECT : RUN_EXEC;
   if (!(pp ? pp->fn.exec_ok : co->fn.exec_ok) && mode != RUN_EMULATE) {
     mode = RUN_EMULATE;  // code for a foreign backend must never be called
     c.count("probe.foreign_code_emulated_only");
@@ -878,7 +909,8 @@ static void hist_run(const std::vector<std::string> &plan, Child &c) {
         c.count("op.freep");
       } else if (op == "freec") {
         if (st.codes.empty()) { c.event("  skip"); continue; }
-        size_t i = kvi(w, "c") % st.codes.size();
+        std::string cs = kv(w, "c", "0");
+        size_t i = cs == "newest" ? st.codes.size() - 1 : cs == "middle" ? st.codes.size() / 2 : (size_t)kvi(w, "c") % st.codes.size();
         bool native = st.codes[i].fn.native;
         if (st.codes[i].raw) c.count("op.free_raw");
         free_code(st, i);
@@ -933,6 +965,16 @@ static void hist_run(const std::vector<std::string> &plan, Child &c) {
         while (!st.progs.empty()) free_prog(st, st.progs.size() - 1);
         while (!st.codes.empty()) free_code(st, st.codes.size() - 1);
         c.count("op.freeall");
+        if (st.O("enum")) {
+          c.count("enum.alloc_free_sequences_completed");
+          // after "free everything" every region must be one free chunk again
+          Layout l2;
+          walk_codemem(l2);
+          if (l2.used_chunks() != 0 || l2.total_chunks() != (int)l2.regions.size())
+            c.violation("growth", "not-coalesced-after-free-all", strf("%d regions, %d chunks, %d used after everything was freed", (int)l2.regions.size(), l2.total_chunks(), l2.used_chunks()));
+          if (l2.regions.size() > 6)
+            c.violation("growth", "regions-grow-over-sequences", strf("%zu regions after enumerated sequences that never need more than 6 at once", l2.regions.size()));
+        }
       } else if (op == "subject") {
         size_t si = kvi(w, "s");
         if (si >= st.subjects.size() || !st.subjects[si].usable) { c.event("  skip unusable subject"); continue; }
